@@ -137,3 +137,13 @@ func cleanRuntime(env *lisp.LEnv, pkg string) {
 	vAssert(env.Runtime.EvalNesting() == 0, "evaluator nesting is zero")
 	vAssert(env.Runtime.Package.Name == pkg, "current package restored")
 }
+
+func stringsReader(s string) *strings.Reader { return strings.NewReader(s) }
+
+// keepBuiltin returns a host builtin (keep x) that remembers and returns its argument.
+func keepBuiltin(dst **lisp.LVal) lisp.LBuiltinDef {
+	return elpsutil.Function("keep", lisp.Formals("x"), func(env *lisp.LEnv, args *lisp.LVal) *lisp.LVal {
+		*dst = args.Cells[0]
+		return args.Cells[0]
+	})
+}
